@@ -25,3 +25,6 @@ Check Props.C02.C02_nothing_hangs_on_a_dead_actor :
   forall tr s s', run init tr = Acc s -> step s EvQuiesce = Acc s' ->
   forall o p x, ops s o = Some p -> op_k p <> XReg -> op_reg p = None ->
   actors s (op_a p) = Some x -> a_phase x = PhDone -> op_done p = true.
+Check Props.C02.C02_pending_until_returned_or_given_up :
+  forall s e s' o, step s e = Acc s' -> In o (pending s) ->
+  In o (pending s') \/ (exists r, e = EvRet o r) \/ e = EvAbandon o.
